@@ -37,40 +37,102 @@ def _run_cli(cmd, text, timeout):
         os.unlink(path)
 
 
+def _walk(t, seen):
+    if t.get_id() in seen:
+        return
+    seen.add(t.get_id())
+    yield t
+    if z3.is_quantifier(t):
+        yield from _walk(t.body(), seen)
+    else:
+        for c in t.children():
+            yield from _walk(c, seen)
+
+
+def symbols(t):
+    out = set()
+    for x in _walk(t, set()):
+        if z3.is_app(x) and x.decl().kind() == z3.Z3_OP_UNINTERPRETED:
+            out.add(x.decl().name())
+    return out
+
+
+def has_quantifier(t):
+    return any(z3.is_quantifier(x) for x in _walk(t, set()))
+
+
+def _try(hyps, neg, timeout_ms):
+    s = z3.Solver()
+    s.set("timeout", timeout_ms)
+    s.add(*hyps)
+    s.add(neg)
+    r = s.check()
+    return r, s
+
+
+def relevant_subsets(hyps, goal):
+    """Sound weakenings of the hypothesis set (proving from fewer hypotheses proves the obligation)."""
+    gs = symbols(goal)
+    hs = [(h, symbols(h), has_quantifier(h)) for h in hyps]
+    # cone of influence, quantified hypotheses do not extend the cone
+    cone = set(gs)
+    for _ in range(3):
+        for h, sy, q in hs:
+            if not q and sy & cone:
+                cone |= sy
+    yield "cone", [h for h, sy, q in hs if sy & cone]
+    yield "cone-qf-only", [h for h, sy, q in hs if not q and sy & cone]
+    direct = [h for h, sy, q in hs if sy & gs]
+    yield "direct", direct
+    yield "qf-only", [h for h, sy, q in hs if not q]
+
+
 def discharge(ob, portfolio=True):
     """Decide one obligation.  Sets status/backend/seconds/model."""
     neg = z3.Not(ob.goal)
     t0 = time.time()
-    s = z3.Solver()
-    s.set("timeout", Z3_TIMEOUT_MS)
-    s.add(*ob.hyps)
-    s.add(neg)
-    r = s.check()
-    ob.seconds = time.time() - t0
-    ob.backend = f"z3-{z3.get_version_string()}"
+    zv = f"z3-{z3.get_version_string()}"
+    r, s = _try(ob.hyps, neg, min(3000, Z3_TIMEOUT_MS))
+    ob.backend = zv
     if r == z3.unsat:
-        ob.status = "discharged"
+        ob.status, ob.seconds = "discharged", time.time() - t0
         return ob
     if r == z3.sat:
-        ob.status = "refuted"
-        ob.model = s.model()
+        ob.status, ob.model, ob.seconds = "refuted", s.model(), time.time() - t0
         return ob
-    ob.detail = f"z3: {s.reason_unknown()}"
+    # sound weakenings: subsets of the hypotheses (unsat from a subset is unsat from the whole set;
+    # sat from a subset means nothing and is ignored)
+    for label, sub in relevant_subsets(ob.hyps, ob.goal):
+        if len(sub) == len(ob.hyps):
+            continue
+        r2, _ = _try(sub, neg, 4000)
+        if r2 == z3.unsat:
+            ob.status, ob.seconds, ob.backend = "discharged", time.time() - t0, f"{zv}[{label}]"
+            return ob
+    text = None
     if portfolio:
         text = _smt2(ob.hyps, neg)
         uses_strings = "String" in text
         cvc5 = ["/usr/bin/cvc5", f"--tlimit={CLI_TIMEOUT_S * 1000}"]
         if uses_strings:
             cvc5.append("--strings-exp")
-        ans, secs = _run_cli(cvc5, text.replace("(check-sat)", "(set-logic ALL)\n(check-sat)") if False else
-                             "(set-logic ALL)\n" + text, CLI_TIMEOUT_S)
-        ob.seconds += secs
+        ans, secs = _run_cli(cvc5, "(set-logic ALL)\n" + text, CLI_TIMEOUT_S)
         if ans == "unsat":
-            ob.status, ob.backend = "discharged", "cvc5-1.0.3"
+            ob.status, ob.backend, ob.seconds = "discharged", "cvc5-1.0.3", time.time() - t0
             return ob
         if ans == "sat":
-            ob.status, ob.backend = "refuted", "cvc5-1.0.3"
+            ob.status, ob.backend, ob.seconds = "refuted", "cvc5-1.0.3", time.time() - t0
             return ob
+    r, s = _try(ob.hyps, neg, Z3_TIMEOUT_MS)
+    ob.seconds = time.time() - t0
+    if r == z3.unsat:
+        ob.status = "discharged"
+        return ob
+    if r == z3.sat:
+        ob.status, ob.model = "refuted", s.model()
+        return ob
+    ob.detail = f"z3: {s.reason_unknown()}"
+    if portfolio:
         ans, secs = _run_cli(["/usr/bin/z3", f"-T:{CLI_TIMEOUT_S}"], text, CLI_TIMEOUT_S)
         ob.seconds += secs
         if ans == "unsat":
